@@ -15,6 +15,7 @@ class Session:
         self.hs = []
         self.validated = 0
         self.known = set()
+        self.only_unreachable = False      # C06 reuses other properties' groups but keeps only the panic / bound obligations
 
     def harness(self, **kw):
         kw.setdefault('timeout_s', self.timeout_s)
@@ -29,6 +30,8 @@ class Session:
     # ------------------------------------------------------------------
     def prove(self, h, name, hyps, goal, decode=None, replay=None, uf=False, cls=None, note=None):
         """H => G for all values within the bounds, or a natively confirmed counterexample"""
+        if self.only_unreachable and not getattr(self, '_in_unreachable', False):
+            return None
         mode = 'rank' if h.rank else 'concrete'
         status, model, dt = h.check(list(h.wf) + list(hyps), goal, uf=uf)
         r = {'ob': name, 'mode': mode, 'solver_s': round(dt, 3), 'kind': 'prove'}
@@ -69,6 +72,8 @@ class Session:
 
     def cover(self, h, name, hyps):
         """vacuity witness: the hypotheses (and the reached situation) are satisfiable"""
+        if self.only_unreachable:
+            return None
         status, model, dt = h.check(list(h.wf) + list(hyps), None)
         r = {'ob': name, 'mode': 'rank' if h.rank else 'concrete', 'solver_s': round(dt, 3), 'kind': 'cover'}
         if status == 'sat':
@@ -88,7 +93,11 @@ class Session:
         if not conds:
             self.results.append({'ob': name, 'mode': 'rank' if h.rank else 'concrete', 'solver_s': 0.0, 'kind': 'prove', 'verdict': 'holds', 'note': 'no such path in the encoding'})
             return
-        return self.prove(h, name, hyps, NOT(OR(*conds)), decode=decode, replay=replay, cls=cls)
+        self._in_unreachable = True
+        try:
+            return self.prove(h, name, hyps, NOT(OR(*conds)), decode=decode, replay=replay, cls=cls)
+        finally:
+            self._in_unreachable = False
 
     def bounds_ok(self, h, name, hyps):
         """unwinding assertion: no capacity / loop bound of the encoding is exceeded under the hypotheses"""
